@@ -36,6 +36,10 @@ def run(sh):
         seed = core.stable_int(sh.seed, 'C02', 'errbuf', i) % (1 << 40)
         engine_line.run_spec(sh, 'C02', modelgen.generate_error_buffer(seed, pol[i % 4]), MONITORS, nontrivial,
                              prefix='error_path_')
+    # scale: more than a thousand parts released by one buffer in one event
+    for i in sh.share(2 if sh.tier == 'quick' else 12):
+        engine_line.run_spec(sh, 'C02', modelgen.generate_mass_release(i, pol[i % 4]), MONITORS, nontrivial,
+                             prefix='mass_release_')
 
 
 def replay(sh, v):
